@@ -15,6 +15,7 @@ from vlib.common import Res, derive_seed, rng_of, EPS
 from vlib.gen import c08_models as Z
 
 PROPERTY = "C08"
+KEY_N1 = "C09-N1:rate-sensitive-rootfind-nan-seen-from-C08"
 LEVEL = "exploration"
 B = 32  # batch size of the compiled-batch mode (>= 8)
 PAIR_CLASSES = ("two_equal", "uniaxial_inplane", "equibiaxial")
@@ -232,8 +233,14 @@ def _check_points(res, name, mode, cls, cvec, dt, F, Q, S, SQ, A, e2, tag=""):
     for i in range(n):
         allowed = _allowed_energy(name, mu, kappa, w0[i] if onp.isfinite(w0[i]) else 0.0, e2[i])
         det = {"cfg": name, "mode": mode, "i": i, "W": w0[i], "strain": math.sqrt(e2[i]), "cvec": list(cvec)}
-        m = _mech(name, mode, cls, F[i], QF[i])
-        if m:
+        # the rate-sensitive J2 update can return NaN when its root find runs out of iterations right at first yield
+        # (open finding C09-N1 of property C09); here it shows as a non-finite energy/stress of a "rate" configuration
+        n1 = KEY_N1 if ("rate" in name and not (onp.isfinite(w0[i]) and onp.isfinite(wq[i]) and onp.isfinite(wr[i])
+                                                 and onp.all(onp.isfinite(p0[i])))) else None
+        if n1:
+            res.count("rate_sensitive_nonfinite_points[C09-N1]")
+        m = _mech(name, mode, cls, F[i], QF[i]) or n1
+        if m and m != n1:
             res.count("d8_class_points")
         elif mode == "batched" and cls in PAIR_CLASSES:
             res.count("batched_pair_class_noneigen_points")
@@ -241,14 +248,14 @@ def _check_points(res, name, mode, cls, cvec, dt, F, Q, S, SQ, A, e2, tag=""):
         if m and not ok:
             res.count("d8_class_failed_clauses")
         res.count("objectivity_evals:" + mode)
-        m = _mech(name, mode, cls, F[i], FQ[i])
+        m = _mech(name, mode, cls, F[i], FQ[i]) or n1
         ok = res.bound("isotropy_FQ" + tag + (KF if m else ""), abs(wr[i] - w0[i]), allowed, dict(det, WFQ=wr[i], F=F[i], Q=Q[i]), m)
         if m and not ok:
             res.count("d8_class_failed_clauses")
         res.count("isotropy_evals:" + mode)
         tau = p0[i] @ F[i].T
         nt = float(onp.linalg.norm(tau))
-        m = _mech(name, mode, cls, F[i])
+        m = _mech(name, mode, cls, F[i]) or n1
         res.bound("kirchhoff_symmetry" + tag + (KF if m else ""), float(onp.abs(tau - tau.T).max()), 1e-10 * nt + 1e-300,
                   dict(det, tau=tau, F=F[i]), m)
         res.count("tau_symmetry_evals:" + mode)
